@@ -88,8 +88,27 @@ theorem C08_union_position (s : Schema) (g : Graph) (k : Nat → String → Nat 
   · intro hm
     simp [complete, hu, hm]
 
+/-- **C08_union_static.**  Repaired (D103): the selections under a union-typed field are walked at the union — a
+member's fields are reached through a fragment (`C08_applies_abstract`), a field selected directly there is not a
+field of the union (C10) — while a field of any other type is walked at the type `complete` hands on. -/
+theorem C08_union_static (env : Env) (h : env.cfg.unionAtMember = false) (declared : TRef) (t unm : String)
+    (ms : List String) (hu : env.schema.find declared.base = some (.union unm ms)) :
+    staticTy env declared t = declared.base := by
+  simp [staticTy, h, hu]
+
+theorem staticTy_not_union (env : Env) (declared : TRef) (t : String)
+    (hn : ∀ unm ms, env.schema.find declared.base ≠ some (.union unm ms)) : staticTy env declared t = t := by
+  unfold staticTy
+  split
+  · rfl
+  · split
+    · rename_i unm ms heq; exact absurd heq (hn unm ms)
+    · rfl
+
 /-- the configuration read from the source on this run -/
 theorem gen_condByIdentity : Gen.condByIdentity = false := by decide
+
+theorem gen_unionAtMember : Gen.unionAtMember = false := by decide
 
 /-- **C08_current.**  On the tree the tables were regenerated from: under any environment whose fragment test is
 the one read from the source, fragments apply by DoesFragmentTypeApply on the type walked, and fragments that do
